@@ -26,6 +26,16 @@ func WriteChildResult(x *Exec, ok bool) {
 	os.WriteFile(os.Getenv("VERIF_ONE_OUT"), b, 0644)
 }
 
+// WriteChildDiverged tells the parent that the schedule could not be replayed even in a fresh process (the code under
+// test is not deterministic under a fixed schedule: Go map iteration order, say).
+func WriteChildDiverged(dv string) {
+	b, _ := json.Marshal(map[string]interface{}{"diverged": dv})
+	os.WriteFile(os.Getenv("VERIF_ONE_OUT"), b, 0644)
+}
+
+// Unreplayable counts schedules skipped because replaying their prefix diverged in several fresh processes in a row.
+var Unreplayable int
+
 // RemoteVia builds an Explorer.Remote: runChild re-runs the current case of the harness in a fresh process with the
 // given extra environment (the harness runner provides it) and returns the child's stderr and exit error. budget is
 // decremented per child execution; at zero the exploration stops (Capped). crashed is told about children that died.
@@ -34,7 +44,6 @@ func RemoteVia(runChild func(env []string) (string, error), scratch string, budg
 		if *budget <= 0 {
 			return nil, false
 		}
-		*budget--
 		of, err := os.CreateTemp(scratch, "exec-*.json")
 		if err != nil {
 			return nil, false
@@ -42,20 +51,32 @@ func RemoteVia(runChild func(env []string) (string, error), scratch string, budg
 		of.Close()
 		defer os.Remove(of.Name())
 		pj, _ := json.Marshal(prefix)
-		stderr, err := runChild([]string{"VERIF_ONE_EXEC=" + string(pj), "VERIF_ONE_OUT=" + of.Name()})
-		if err != nil {
-			crashed(prefix, stderr, err)
-			return nil, false
+		for attempt := 0; attempt < 4 && *budget > 0; attempt++ {
+			*budget--
+			stderr, err := runChild([]string{"VERIF_ONE_EXEC=" + string(pj), "VERIF_ONE_OUT=" + of.Name()})
+			if err != nil {
+				crashed(prefix, stderr, err)
+				return nil, false
+			}
+			var r struct {
+				Exec     *Exec  `json:"exec"`
+				OK       bool   `json:"ok"`
+				Diverged string `json:"diverged"`
+			}
+			b, _ := os.ReadFile(of.Name())
+			if json.Unmarshal(b, &r) != nil {
+				return nil, false
+			}
+			if r.Diverged != "" {
+				continue // not deterministic under this schedule: try again
+			}
+			if r.Exec == nil {
+				return nil, false
+			}
+			return r.Exec, r.OK
 		}
-		var r struct {
-			Exec *Exec `json:"exec"`
-			OK   bool  `json:"ok"`
-		}
-		b, _ := os.ReadFile(of.Name())
-		if json.Unmarshal(b, &r) != nil || r.Exec == nil {
-			return nil, false
-		}
-		return r.Exec, r.OK
+		Unreplayable++
+		return nil, true
 	}
 }
 
@@ -67,8 +88,8 @@ func (e *Explorer) ExploreIsolating(runChild func(env []string) (string, error),
 	if choices, child := ChildChoices(); child {
 		x := e.Replay(choices)
 		if dv := e.Diverged(); dv != "" {
-			os.Stderr.WriteString("HARNESS-ERROR: " + dv + " in a fresh process\n")
-			os.Exit(3)
+			WriteChildDiverged(dv)
+			return Result{Execs: 1}, false
 		}
 		WriteChildResult(x, e.Check(x))
 		return Result{Execs: 1, Steps: int64(len(x.Trace))}, false
